@@ -146,6 +146,11 @@ class World:
             "ticks": ch.choice(2, "policy.ticks"),
             # virtual duration distribution: 0 zero, 1 equal, 2 exponential-ish, 3 bimodal
             "durations": ch.choice(4, "policy.durations"),
+            # when a pool worker starts the task body: 0, 1 at some later moment (the body runs
+            # when its completion is delivered); 2 a coin per job; 3 at once, before the
+            # scheduler thread has executed the statement that follows submit() (the pool thread
+            # wins the race) -- its completion is still delivered later
+            "start": ch.choice(4, "policy.start"),
         }
 
     def event(self, kind: str, *data: Any) -> int:
@@ -349,11 +354,10 @@ class SimPool:
                 payload = None
                 pickling_error = e
 
-        def thunk() -> None:
+        def body() -> tuple:
             if mode == "process":
                 if payload is None:
-                    fut.set_exception(pickling_error)
-                    return
+                    return False, pickling_error
                 fn2, args2, kwargs2 = pickle.loads(payload)
                 ok, val = _run_in_thread(lambda: fn2(*args2, **kwargs2))
                 try:
@@ -361,8 +365,17 @@ class SimPool:
                     ok, val = pickle.loads(blob)
                 except BaseException as e:  # result not picklable
                     ok, val = False, e
-            else:
-                ok, val = _run_in_thread(lambda: fn(*args, **kwargs))
+                return ok, val
+            return _run_in_thread(lambda: fn(*args, **kwargs))
+
+        start = w.policy.get("start", 0)
+        early: list = []
+        if start == 3 or (start == 2 and w.ch.coin(0.5, "start-at-once")):
+            w.event("body-at-submit", label)
+            early.append(body())
+
+        def thunk() -> None:
+            ok, val = early[0] if early else body()
             if ok:
                 fut.set_result(val)
             else:
